@@ -440,3 +440,41 @@ def spawned_future(ctx, an, fut):
                                 caps[fname] = fut[3][op.place.local - 1]
             return co, caps
     return None, {}
+
+
+def diagnostic_only_branch(body, bb):
+    """the switch at bb only decides whether something is logged: every block between it and its immediate post-dominator
+    contains nothing but tracing-macro code (and storage / unit assignments)"""
+    from . import boolform
+    ipd = getattr(body, "_ipdom", None)
+    if ipd is None:
+        ipd = body._ipdom = boolform._ipdom(body)
+    idom, EXIT = ipd
+    stop = idom.get(bb)
+    if stop is None or stop == EXIT:
+        return False
+    work = list(body.succ[bb])
+    seen = set()
+    while work:
+        x = work.pop()
+        if x == stop or x in seen:
+            continue
+        seen.add(x)
+        blk = body.blocks[x]
+        if blk.cleanup:
+            continue
+        if x in tracing_region_blocks(body):
+            work.extend(body.succ[x])
+            continue        # argument expressions of the macro, evaluated only when the event is enabled
+        for s in blk.stmts:
+            if s.kind == "assign" and not body.is_noise(s):
+                # unit / constant bookkeeping only
+                if not (s.rv.k == "use" and s.rv.ops and s.rv.ops[0].place is None) and not (s.rv.k == "agg" and not s.rv.ops):
+                    return False
+        t = blk.term
+        if t.kind in ("call", "assert", "yield", "return") and not body.is_noise(t):
+            return False
+        if t.kind == "switch" and not body.is_noise(t) and not diagnostic_only_branch(body, x):
+            return False
+        work.extend(body.succ[x])
+    return bool(seen)
